@@ -27,10 +27,12 @@ ASSUMPTIONS = ["metric classes are plain State subclasses (instances truthy: no 
 def extra_obligations():
     """ScopeMetrics.record and MetricsContext.record regenerated from /repo's metrics.py as MiniPy terms and proved to refine
     `Metrics.record` (store / merge-by-truthiness / refused once completed / a raising merge leaves the value) and
-    `Metrics.ctxRecord` (recording never raises an Exception into user code) for arbitrary recorded values"""
+    `Metrics.ctxRecord` (recording never raises an Exception into user code) for arbitrary recorded values; C10's fold law
+    restated of the regenerated `record` over whole histories; and `ScopeMetrics.metrics(merge=…)` – the merged view – taken
+    apart into the pieces of its `for` loop and proved to be the left fold over the nested scopes' values"""
     from harness import core, regen
 
-    return regen.check("metrics", core.REPO, core.LEAN)
+    return regen.check("metrics", core.REPO, core.LEAN) + regen.check("view", core.REPO, core.LEAN)
 
 
 def _vals(vs) -> str:
